@@ -1013,6 +1013,17 @@ func c20Run(job, tier string, deadline time.Time) *engine.Result {
 				}
 			}
 		}
+		// several large messages produced back to back (more than the send buffer holds at once)
+		big5 := []int{300 * 1024, 300 * 1024, 300 * 1024, 300 * 1024, 300 * 1024}
+		for _, q := range []c20WS{
+			{Lens: []int{5}, Push: big5, Masked: true, Key: 0x01020304, WSKey: "dGhlIHNhbXBsZSBub25jZQ=="}, // the server produces them
+			{Lens: big5, Pipeline: true, Masked: false, WSKey: "dGhlIHNhbXBsZSBub25jZQ=="},                 // the bundled client produces them
+			{Lens: big5, Pipeline: true, Masked: true, Key: 0x01020304, WSKey: "dGhlIHNhbXBsZSBub25jZQ=="},
+		} {
+			if report(c.doWS(q), map[string]interface{}{"ws": q}) {
+				return r
+			}
+		}
 		r.Sample(map[string]interface{}{"lengths": []int{200 * 1024, 300 * 1024}})
 	case "ws-mtu1500":
 		// Ethernet-sized segments: a 20000-byte message is 14 segments, more than the initial
